@@ -207,7 +207,42 @@ func main() {
 		}
 		t, _ := hex.DecodeString(r.Text)
 		x, _ := hex.DecodeString(r.Expected)
-		run(r.Kind, e, string(t), string(x), r.HasExp)
+		if strings.HasPrefix(r.Kind, "end-to-end:") {
+			// re-run the document on the recorded way in; report what data_dir came out
+			dir, err := os.MkdirTemp("", "verif-c37r-")
+			if err != nil {
+				panic(err)
+			}
+			defer os.RemoveAll(dir)
+			file := dir + "/config.yaml"
+			os.WriteFile(file, t, 0o644)
+			os.WriteFile(dir+"/not-a-binary", []byte("x"), 0o644)
+			setEnv(e)
+			var cfg *config.Config
+			switch strings.TrimPrefix(r.Kind, "end-to-end:") {
+			case "Parse":
+				cfg, err = config.Parse(t)
+			case "Load":
+				cfg, err = config.Load(file)
+			default:
+				cfg, _, err = config.LoadOrEmbeddedFrom(dir+"/not-a-binary", file)
+			}
+			// single pass: data_dir must be what one expansion of the text gives
+			setEnv(e)
+			once, perr := config.Parse(t)
+			if err != nil || perr != nil {
+				c.Fail("parse-error", fmt.Sprintf("%s: %v / %v", r.Kind, err, perr), r)
+			} else if cfg.Agent.DataDir != once.Agent.DataDir || strings.Contains(string(t), "${DD}") && cfg.Agent.DataDir != e["DD"] {
+				c.Fail("end-to-end-expansion-wrong", fmt.Sprintf("%s: data_dir %q (config.Parse gives %q, environment %v)", r.Kind, cfg.Agent.DataDir, once.Agent.DataDir, e), r)
+			}
+			c.Case("replay|"+r.Kind, true, r)
+			body.Int(0)
+			body.Ref("")
+			body.Ref("")
+			nCases++
+		} else {
+			run(r.Kind, e, string(t), string(x), r.HasExp)
+		}
 	} else {
 		// fixed witnesses first: documented forms and boundary spellings
 		base := envT{"A": "$B", "B": "x", "E": "", "HOME_DIR": "/home/u", "P": "${A}"}
@@ -234,25 +269,58 @@ func main() {
 		for i := 0; i < nR; i++ {
 			run("random", genEnv(c.Rand), genRandomText(c.Rand), "", false)
 		}
-		// end to end through config.Parse: the expanded value lands in the parsed field and is not expanded again
-		for i, tc := range []struct {
+		// end to end, on every way a configuration text reaches the parser: config.Parse, config.Load (file)
+		// and config.LoadOrEmbeddedFrom (binary without embedded configuration, then the file): the expanded
+		// value lands in the parsed field and is not expanded again
+		tmpDir, err := os.MkdirTemp("", "verif-c37-")
+		if err != nil {
+			panic(err)
+		}
+		defer os.RemoveAll(tmpDir)
+		plainBinary := tmpDir + "/not-a-binary"
+		if err := os.WriteFile(plainBinary, []byte("no embedded configuration here"), 0o644); err != nil {
+			panic(err)
+		}
+		type e2e struct {
 			env  envT
 			doc  string
 			want string
-		}{
+		}
+		cases := []e2e{
 			{envT{"DD": "/srv/$NOT/${EXPANDED}", "NOT": "boom", "EXPANDED": "boom"}, "agent:\n  data_dir: \"${DD}\"\n", "/srv/$NOT/${EXPANDED}"},
+			{envT{"DD": "/srv/$NOT", "NOT": "boom"}, "agent:\n  data_dir: \"$DD\"\n", "/srv/$NOT"},
+			{envT{"DD": "${NOT:-fallback}"}, "agent:\n  data_dir: \"${DD:-x}\"\n", "${NOT:-fallback}"},
+			{envT{"DD": "$DD/again"}, "agent:\n  data_dir: \"${DD}\"\n", "$DD/again"},
 			{envT{}, "agent:\n  data_dir: \"${NONE:-/default/path}\"\n", "/default/path"},
+			{envT{"OTHER": "boom"}, "agent:\n  data_dir: \"${NONE:-/default/$OTHER}\"\n", "/default/$OTHER"},
 			{envT{}, "agent:\n  data_dir: \"/x/$UNSET_VAR/y\"\n", "/x/$UNSET_VAR/y"},
-		} {
-			setEnv(tc.env)
-			cfg, err := config.Parse([]byte(tc.doc))
-			rp := replay{Kind: "parse", Env: envList(tc.env), Text: hex.EncodeToString([]byte(tc.doc)), TextQ: fmt.Sprintf("%q", tc.doc)}
-			if err != nil {
-				c.Fail("parse-error", fmt.Sprintf("parse case %d: %v", i, err), rp)
-			} else if cfg.Agent.DataDir != tc.want {
-				c.Fail("parse-expansion-wrong", fmt.Sprintf("parse case %d: data_dir %q, want %q", i, cfg.Agent.DataDir, tc.want), rp)
+			{envT{"A": "1", "B": "$A"}, "agent:\n  data_dir: \"/d/$A/$B/${B}\"\n", "/d/1/$A/$A"},
+		}
+		for i, tc := range cases {
+			file := fmt.Sprintf("%s/config%d.yaml", tmpDir, i)
+			if err := os.WriteFile(file, []byte(tc.doc), 0o644); err != nil {
+				panic(err)
 			}
-			c.Count("kind:parse")
+			for _, way := range []string{"Parse", "Load", "LoadOrEmbeddedFrom"} {
+				setEnv(tc.env)
+				var cfg *config.Config
+				var err error
+				switch way {
+				case "Parse":
+					cfg, err = config.Parse([]byte(tc.doc))
+				case "Load":
+					cfg, err = config.Load(file)
+				default:
+					cfg, _, err = config.LoadOrEmbeddedFrom(plainBinary, file)
+				}
+				rp := replay{Kind: "end-to-end:" + way, Env: envList(tc.env), Text: hex.EncodeToString([]byte(tc.doc)), TextQ: fmt.Sprintf("%q", tc.doc)}
+				if err != nil {
+					c.Fail("parse-error", fmt.Sprintf("%s case %d: %v", way, i, err), rp)
+				} else if cfg.Agent.DataDir != tc.want {
+					c.Fail("end-to-end-expansion-wrong", fmt.Sprintf("config.%s: data_dir %q, want %q (text %q, environment %v)", way, cfg.Agent.DataDir, tc.want, tc.doc, tc.env), rp)
+				}
+				c.Count("kind:end-to-end:" + way)
+			}
 		}
 		if c.Thorough() {
 			// exhaustive: every text of length <= 5 over 8 symbols, one environment
